@@ -48,9 +48,9 @@ SHARD_TIMEOUT = {"quick": 600, "thorough": 5400}
 def minimums(tier: str) -> Dict[str, int]:
     if tier == "quick":
         return {"evaluations": 1400, "distinct": 1300, "shapes_compared": 12000, "class:line": 800, "class:rect": 1200,
-                "class:curve": 3000, "n_ended_paths": 800, "seen:operators": 35, "colours_asserted": 8000}
+                "class:curve": 3000, "n_ended_paths": 800, "seen:operators": 35, "colours_asserted": 8000, "pages_judged_after_an_earlier_page": 350}
     return {"evaluations": 40000, "distinct": 38000, "shapes_compared": 350000, "class:line": 25000, "class:rect": 35000,
-            "class:curve": 90000, "n_ended_paths": 25000, "seen:operators": 35, "colours_asserted": 250000}
+            "class:curve": 90000, "n_ended_paths": 25000, "seen:operators": 35, "colours_asserted": 250000, "pages_judged_after_an_earlier_page": 10000}
 
 
 def shards(tier: str, seed: int) -> List[Dict[str, Any]]:
@@ -244,15 +244,25 @@ def gen_case(seed_str: str, tier: str) -> Dict[str, Any]:
     content = b" ".join(emit_tokens(ops))
     cat = doc.alloc()
     pages = doc.alloc()
+    kids = []
+    if rng.random() < 0.3:
+        # an earlier page, interpreted first by the same interpreter, that leaves line width, dash pattern, colours and
+        # colour spaces behind: the judged page starts from the initial graphics state all the same (8.4.1)
+        g0 = Gen(random.Random(seed_str + "/before"), csn)
+        before = b" ".join(emit_tokens(g0.build(rng.randint(4, 10)))) + b" 5 w [3 1] 2 d 0.5 0.25 0.75 RG 0.25 0.5 0 1 k"
+        kids.append(doc.add({"Type": N("Page"), "Parent": pages, "MediaBox": [0, 0, 612, 792], "Resources": {"ColorSpace": csres},
+                             "Contents": doc.add(Stream({}, before))}))
     page = doc.add({"Type": N("Page"), "Parent": pages, "MediaBox": [0, 0, 612, 792], "Resources": {"ColorSpace": csres},
                     "Contents": doc.add(Stream({}, content))})
-    doc.set(pages, {"Type": N("Pages"), "Kids": [page], "Count": 1})
+    kids.append(page)
+    doc.set(pages, {"Type": N("Pages"), "Kids": kids, "Count": len(kids)})
     doc.set(cat, {"Type": N("Catalog"), "Pages": pages})
     doc.trailer["Root"] = cat
-    return {"pdf": doc.build(), "ops": ops, "content": content, "cs": {k: v for k, v in csn.items() if k.startswith("Cs")}}
+    return {"pdf": doc.build(), "ops": ops, "content": content, "cs": {k: v for k, v in csn.items() if k.startswith("Cs")},
+            "pages_before": len(kids) - 1}
 
 
-def observe(pdf: bytes) -> List[Any]:
+def observe(pdf: bytes, last_only: bool = False) -> List[Any]:
     from pdfminer.converter import PDFPageAggregator
     from pdfminer.layout import LTCurve
     from pdfminer.pdfinterp import PDFPageInterpreter, PDFResourceManager
@@ -261,8 +271,9 @@ def observe(pdf: bytes) -> List[Any]:
     rm = PDFResourceManager()
     dev = PDFPageAggregator(rm, laparams=None)
     it = PDFPageInterpreter(rm, dev)
-    page = next(PDFPage.get_pages(io.BytesIO(pdf)))
-    it.process_page(page)
+    pages = list(PDFPage.get_pages(io.BytesIO(pdf)))
+    for page in (pages[-1:] if last_only else pages):   # one interpreter for all pages; the LAST page is judged
+        it.process_page(page)
     lt = dev.get_result()
     return [x for x in lt if isinstance(x, LTCurve)]
 
@@ -293,6 +304,19 @@ def compare(case: Dict[str, Any], rec: Any = None) -> List[Tuple[str, str]]:
                 fn = tb.tb_frame.f_code.co_name
             tb = tb.tb_next
         return [("exception:%s:%s" % (type(e).__name__, fn), "%s: %s" % (type(e).__name__, e))]
+    if case.get("pages_before"):
+        # the same page interpreted alone by a fresh interpreter: nothing an earlier page did may show
+        def sig(x: Any) -> Any:
+            return (type(x).__name__, repr(x.pts), repr(x.linewidth), repr(x.dashing_style), repr(x.stroking_color),
+                    repr(x.non_stroking_color), x.stroke, x.fill, x.evenodd)
+
+        alone = observe(case["pdf"], last_only=True)
+        if rec is not None:
+            rec.count("pages_judged_after_an_earlier_page")
+        if [sig(x) for x in alone] != [sig(x) for x in got]:
+            d = next((i for i, (a, b) in enumerate(zip(alone, got)) if sig(a) != sig(b)), min(len(alone), len(got)))
+            return [("page_state_leak", "shape #%d of the page differs when an earlier page was interpreted first: alone %s, after %s" % (
+                d, sig(alone[d]) if d < len(alone) else None, sig(got[d]) if d < len(got) else None))]
     if len(got) != len(exp):
         return [("shape_count", "expected %d shapes, got %d; expected ops %s; got %s" % (
             len(exp), len(got), ["".join(s.ops) for s in exp][:12], [type(x).__name__ + ":%d" % len(x.pts) for x in got][:12]))]
